@@ -6,10 +6,12 @@ FUNCTIONS = ["exception_try", "exception_throw", "exception_catch", "exception_t
 ASSUMPTIONS = []
 EXPLANATION = "every try/catch/throw program tree up to the bound executed on the real Exception.c with symbolic exception kinds, filters and fire flags, against a reference interpreter"
 def E(maxsize, depth, chunk, nchunk, tiers, **kw):
-    return Ob("exc.s%d.chunk%d" % (maxsize, chunk), "C07/exc_programs.c", replace=["Exception.c"], throw="none", link=["Alloc.c"], native_link="all",
+    return Ob("exc.s%d.chunk%02d" % (maxsize, chunk), "C07/exc_programs.c", replace=["Exception.c"], throw="none", link=["Alloc.c"], native_link="all",
               unwind=maxsize + 2, unwindset=["harness.0:700", "harness.1:700", "harness.2:700", "harness.3:700", "verif_len.0:5", "exception_catch.0:5", "run_impl.0:%d" % (maxsize + 2), "run_spec.0:%d" % (maxsize + 2)],
               gen=gen_programs(maxsize, depth, chunk, nchunk), tiers=tiers, object_bits=14,
               desc="programs with <= %d nodes, nesting <= %d, chunk %d of %d" % (maxsize, depth, chunk, nchunk), **kw)
-OBLIGATIONS = [E(4, 3, c, 8, ("probe",), timeout=900) for c in range(8)]
-LEVEL_TEXT = "x"
-LEVEL_NOTE = "x"
+OBLIGATIONS = [E(4, 3, c, 8, ("quick",), timeout=1800) for c in range(8)] + [E(5, 3, c, 48, ("thorough",), timeout=7200, mem_gb=12) for c in range(48)]
+LEVEL_TEXT = ("Bounded model checking: the real Exception.c executed on every try/catch/throw program tree with <= 4 (quick) / <= 5 (thorough) nodes and nesting <= 3 "
+              "(567 / 5447 programs, enumerated structurally), exception kinds, catch filters and whether each throw fires symbolic, compared with a reference interpreter.")
+LEVEL_NOTE = ("Trusted: cbmc; setjmp/longjmp modelled (longjmp records its target, the interpreter transfers control); the interpreter mirrors the try/catch/throw macro bodies "
+              "(generator fails closed if Cello.h's macros change); message formatting and the filter Tuple are environment; signals and EXCEPTION_MAX_DEPTH overflow are out.")
